@@ -299,7 +299,11 @@ def load_known(pid):
     if not os.path.exists(path):
         return []
     data = json.load(open(path))
-    return [f for f in data.get("findings", []) if pid in f.get("properties", [f.get("property")])]
+    fs = list(data.get("findings", []))
+    extra = os.environ.get("VERIF_EXTRA_KNOWN")      # builders only: entries proposed but not yet merged by the lead
+    if extra and os.path.exists(extra):
+        fs += json.load(open(extra))
+    return [f for f in fs if pid in f.get("properties", [f.get("property")])]
 
 
 def report_known(ctx, finding, what=None):
